@@ -460,6 +460,12 @@ def decorate(rng, part, profile):
                 b["grace_prev"] = a["id"]
             seq[-1]["grace_next"] = main["id"]
             main["grace_prev"] = seq[-1]["id"]
+            if profile == "full" and rng.random() < 0.25 and not any(o is not main and o["kind"] == "note" and mp_of(o) == mp_of(main) and o["t"] <= main["t"] <= o["e"] for o in notes):
+                # a grace note tied into its main note
+                g = seq[-1]
+                g["step"], g["alter"], g["octave"] = main["step"], main["alter"], main["octave"]
+                g["tie_next"] = main["id"]
+                main["tie_prev"] = g["id"]
             idx = notes.index(main)
             notes[idx:idx] = seq
     # --- tuplet brackets over generated tuplet groups
@@ -537,7 +543,7 @@ def gen_repeats(rng, part, profile):
     ms = part["measures"]
     n = len(ms)
     bounds = [m["s"] for m in ms] + [ms[-1]["e"]]
-    shape = rng.choice(("simple", "simple2", "volta", "volta3", "dacapo", "dalsegno", "volta+simple", "coda", "simple+dacapo", "volta+dacapo")) if profile == "unfold" else rng.choice(("simple", "volta"))
+    shape = rng.choice(("simple", "simple2", "volta", "volta3", "dacapo", "dalsegno", "volta+simple", "coda", "simple+dacapo", "volta+dacapo", "nested")) if profile == "unfold" else rng.choice(("simple", "volta"))
     part["repeat_shape"] = shape
 
     def rep(a, b):
@@ -546,6 +552,21 @@ def gen_repeats(rng, part, profile):
     def ending(a, b, number):
         part["endings"].append({"s": bounds[a], "e": bounds[b], "number": number})
 
+    if shape == "nested":
+        # |: A |: B :| C :|  - a repeat inside a repeat (they may share the start or the end barline, not both)
+        if n >= 3:
+            a = rng.randrange(0, n - 1)
+            d = rng.randrange(a + 2, n + 1)
+            b = rng.randrange(a, d - 1)
+            c = rng.randrange(b + 1, d + 1)
+            if (a, d) == (b, c):
+                c = d - 1 if d - 1 > b else c
+            if (a, d) == (b, c):
+                b = a + 1
+            rep(a, d)
+            rep(b, c)
+        else:
+            part["repeat_shape"] = shape = "simple"
     if shape == "simple":
         a = rng.randrange(0, n)
         b = rng.randrange(a + 1, n + 1)
@@ -652,7 +673,8 @@ def sounding_notes(part, merge_ties=True):
     for n in part["notes"]:
         if n["kind"] not in ("note",):
             continue
-        if merge_ties and n.get("tie_prev"):
+        # (a note tied from a grace note sounds from its own onset: the grace note has no extent)
+        if merge_ties and n.get("tie_prev") and byid[n["tie_prev"]]["kind"] != "grace":
             continue
         e = n["e"]
         if merge_ties:
